@@ -15,6 +15,7 @@ Lines:
 structure StoreState where
   cur : List (Key × Val) := []                      -- live keys, sorted ascending
   readers : List (Nat × List (Key × Val)) := []
+  prev : List (Key × Val) := []                     -- live keys before the last transaction
 
 def mapErase (m : List (Key × Val)) (k : Key) : List (Key × Val) := m.filter (fun p => p.1 != k)
 
@@ -44,8 +45,11 @@ def storeStep (st : StoreState) (ws : List String) : StoreState × String × Str
         | none => none
       | _, _ => none) (some st.cur)
     match apply with
-    | some m => same { st with cur := m } "ok"
+    | some m => same { st with cur := m, prev := st.cur } "ok"
     | none => same st "bad-op"
+  -- the process dies while the last commit's record is half written (torn tail of the commit log);
+  -- the store is reopened (the tail is cut by repair): that last transaction is gone, everything else stays
+  | ["crashtear", _] => same { st with cur := st.prev, readers := [] } "ok"
   | ["begin", r] =>
     match r.toNat? with
     | some r => same { st with readers := (r, st.cur) :: st.readers.filter (fun p => p.1 != r) } "ok"
